@@ -22,7 +22,7 @@ Not decided: map semantics for overlapping ranges as values.
 import re
 
 from fvlib.core import (CFG, CallGraph, agg_blocks, assignments, call_blocks, calls, callee_matches, callee_name,
-                        describe, guards, guard_region, origins, short)
+                        describe, family, guards, guard_region, origins, short)
 from fvlib.summ import ok_sites
 from fvlib import vm
 
@@ -132,6 +132,7 @@ def run(F, rep, tier, allfacts):
     rep.check(okg, "SHAPE-bounds", "write:len>max->StorageOutOfBounds-before-write", "%s:%s" % (f["file"], f["line"]),
               "a value longer than max_storage_slot_length must be rejected before the store is touched")
     n, f = fn("storage_clear_slot_range")
+    n_clear = n
     cfg = CFG(f)
     oks = ok_sites(f, cfg)
     wr = [(i, [describe(f, a, depth=14) for a in args]) for i, c, args, *_ in calls(f) if callee_matches(c, r"InterpreterStorage::contract_state_remove_range$")]
@@ -146,21 +147,34 @@ def run(F, rep, tier, allfacts):
     rep.check(ok, "CACHE-coherence", "storage_clear_slot_range:cache=None-for-each-key", "%s:%s" % (f["file"], f["line"]),
               "after contract_state_remove_range the cache must be set to None for every key of key_range(key, range); remove %s key_range %s cache %s"
               % (wr and wr[0][1][1:], kr and kr[0][1], ins and ins[0][1][1:]))
-    # range-end pre-check
-    adds = [(i, [describe(f, a, depth=14) for a in args]) for i, c, args, *_ in calls(f) if callee_matches(c, r"::checked_add$")]
-    okr = len(adds) == 1 and adds[0][1][0] == "call:from_big_endian(call:deref(arg:key))" and bool(re.match(r"^call:from\(Sub(WithOverflow|Unchecked)?\(arg:range,const:1\)(\.0)?\)$|^Sub", adds[0][1][1])) is not None
-    d1 = adds[0][1][1] if adds else ""
-    okr = len(adds) == 1 and adds[0][1][0] == "call:from_big_endian(call:deref(arg:key))" and bool(re.search(r"Sub(WithOverflow|Unchecked)?\(arg:range,const:1\)", d1))
-    gl = [(g, guard_region(g, r"^arg:range$", r"^const:1$")) for g in guards(f)]
-    gl = [(g, r) for g, r in gl if r is not None]
-    okg = False
-    if gl and adds:
-        g, reg = gl[0]
-        gt_side = g["t"] if reg == {"gt"} else (g["f"] if reg == {"lt", "eq"} else None)
-        other = g["f"] if gt_side == g["t"] else g["t"]
-        okg = gt_side is not None and adds[0][0] in cfg.reachable_incl(gt_side) and not cfg.dominates(adds[0][0], wr[0][0]) if wr else False
+    # range-end pre-check (in storage_clear_slot_range or a private helper of the module it hands key and range to)
+    fam = family(F, n_clear, "fuel_vm::interpreter::storage::", depth=1)
+    adds = []
+    for gn, g in fam.items():
+        for i, c, args, *_ in calls(g):
+            if callee_matches(c, r"::checked_add$") and "from_big_endian(" in describe(g, args[0], depth=14):
+                adds.append((gn, g, i, [describe(g, a, depth=14) for a in args]))
+    okr = okg = False
+    if len(adds) == 1:
+        gn, g, ib, ad = adds[0]
+        gcfg = CFG(g)
+        first = re.match(r"^call:from_big_endian\((call:(deref|as_ref)\()?arg:\w+\)?\)$", ad[0]) is not None
+        sub_form = re.search(r"Sub(WithOverflow|Unchecked)?\(arg:\w+,const:1\)", ad[1]) is not None
+        csub_form = re.search(r"call:checked_sub\(arg:\w+,const:1\)", ad[1]) is not None      # None (range == 0) is handled by the Option
+        okr = first and (sub_form or csub_form)
+        if csub_form:
+            okg = True
+        else:
+            gl = [(gd, guard_region(gd, r"^arg:\w+$", r"^const:1$")) for gd in guards(g)]
+            gl = [(gd, r) for gd, r in gl if r is not None]
+            if gl:
+                gd, reg = gl[0]
+                gt_side = gd["t"] if reg == {"gt"} else (gd["f"] if reg == {"lt", "eq"} else None)
+                okg = gt_side is not None and ib in gcfg.reachable_incl(gt_side)
+        if gn == n_clear and wr:
+            okg = okg and not cfg.dominates(ib, wr[0][0]) if not csub_form else okg
     rep.check(okr and okg, "TAB-range-end", "clear:start+(range-1)-under-range>1", "%s:%s" % (f["file"], f["line"]),
-              "overflow pre-check must be start.checked_add(range - 1) guarded by range > 1 (the last key of the range must exist, not one past it); found %s" % adds)
+              "overflow pre-check must be start.checked_add(range - 1) guarded by range > 1 (the last key of the range must exist, not one past it); found %s" % [(short(x[0]), x[3]) for x in adds])
     kn, kf = F.find(r"^fuel_vm::interpreter::storage::key_range::\{closure#0\}$", ["fuel_vm"], one=True)
     adds = [[describe(kf, a, depth=10) for a in args] for i, c, args, *_ in calls(kf) if callee_matches(c, r"::checked_add$")]
     rep.check(len(adds) == 1 and adds[0][1] in ("call:from(arg:i)", "arg:i") and "#1.0" in adds[0][0], "TAB-range-end", "key_range:start+i", "%s:%s" % (kf["file"], kf["line"]),
@@ -254,7 +268,7 @@ def run(F, rep, tier, allfacts):
     eb = agg_blocks(f, r"PanicReason$", "StorageOutOfBounds")
     regs = {}
     for g in guards(f):
-        r1 = guard_region(g, r"^var:offset$", r"^call:len\(")
+        r1 = guard_region(g, r"^(var|arg):\w+$", r"^call:len\(")
         if r1 is not None and "max_storage" not in g["a_desc"] + g["b_desc"]:
             regs["offset-vs-len"] = (g, r1)
         r2 = guard_region(g, r"saturating_add\(", r"max_storage_slot_length")
